@@ -3,4 +3,170 @@ import Simpleline.Spec.WidgetSpec
 
 namespace Simpleline
 
+/-! ### `Except` plumbing (private: generic names) -/
+
+private theorem bind_eq_ok {ε α β} (x : Except ε α) (f : α → Except ε β) (b : β) :
+    (x >>= f) = .ok b ↔ ∃ a, x = .ok a ∧ f a = .ok b := by
+  cases x <;> simp [bind, Except.bind]
+
+private theorem pure_eq_ok {ε α} (a b : α) : (pure a : Except ε α) = .ok b ↔ a = b := by
+  simp [pure, Except.pure]
+
+private theorem throw_ne_ok {ε α} (e : ε) (b : α) : (throw e : Except ε α) = .ok b ↔ False := by
+  simp [throw, throwThe, MonadExceptOf.throw]
+
+/-! ### `resetList` and `Wd.add` -/
+
+@[simp] theorem resetList_eq_nil (items : List Wd) : resetList items = [] ↔ items = [] := by
+  cases items <;> simp [resetList]
+
+theorem resetList_append (xs ys : List Wd) : resetList (xs ++ ys) = resetList xs ++ resetList ys := by
+  induction xs with
+  | nil => simp [resetList]
+  | cons x xs ih => simp [resetList, ih]
+
+theorem Wd.reset_add (t x : Wd) : (t.add x).reset = t.reset.add x.reset := by
+  cases t <;> simp only [Wd.add, Wd.reset, resetList_append, resetList]
+
+/-! ### rendering does not read the object state -/
+
+mutual
+theorem render_reset (cc : CharClass) : ∀ (t : Wd) (w : Int), t.render cc w = t.reset.render cc w
+  | .text st t, w => by simp only [Wd.render, Wd.reset, renderTextSt, WSt.clear]
+  | .sep st n, w => by simp only [Wd.render, Wd.reset]
+  | .center st c, w => by
+    have ih := render_reset cc c w
+    simp only [Wd.render, Wd.reset, WSt.clear, ih]
+  | .checkbox st k t x c, w => by simp only [Wd.render, Wd.reset]
+  | .window st title items, w => by
+    have ih := renderWindowItems_reset cc items w
+    simp only [Wd.render, Wd.reset, WSt.clear, ih]
+  | .list st cm cols cw sp kp u nw items, w => by
+    have ih := renderListItems_reset cc items
+    simp only [Wd.render, Wd.reset, WSt.clear, ← ih, ne_eq, resetList_eq_nil]
+theorem renderWindowItems_reset (cc : CharClass) : ∀ (items : List Wd) (w : Int) (st : WSt),
+    renderWindowItems cc w st items = renderWindowItems cc w st (resetList items)
+  | [], _, _ => by simp only [resetList]
+  | it :: its, w, st => by
+    have ih1 := render_reset cc it w
+    have ih2 := renderWindowItems_reset cc its w
+    simp only [renderWindowItems, resetList, ← ih1, ← ih2]
+theorem renderListItems_reset (cc : CharClass) : ∀ (items : List Wd) (used : Int) (kp : Option KeyPat) (i : Nat),
+    renderListItems cc used kp i items = renderListItems cc used kp i (resetList items)
+  | [], _, _, _ => by simp only [resetList]
+  | it :: its, used, kp, i => by
+    have ih1 := render_reset cc it
+    have ih2 := renderListItems_reset cc its used kp
+    simp only [renderListItems, resetList, ← ih1, ← ih2]
+end
+
+/-! ### inversion of successful renders -/
+
+theorem render_window_ok {cc : CharClass} {st : WSt} {title : Option (List Char)} {items : List Wd}
+    {w : Int} {t' : Wd} (h : (Wd.window st title items).render cc w = .ok t') :
+    ∃ st1 st2 items', renderWindowItems cc w st1 items = .ok (st2, items') ∧
+      t' = .window st2 title items' := by
+  simp only [Wd.render] at h
+  split at h
+  · simp only [bind_eq_ok, pure_eq_ok] at h
+    obtain ⟨_, _, st1, _, ⟨st2, items'⟩, h, rfl⟩ := h
+    exact ⟨st1, st2, items', h, rfl⟩
+  · simp only [bind_eq_ok, pure_eq_ok] at h
+    obtain ⟨st1, _, ⟨st2, items'⟩, h, rfl⟩ := h
+    exact ⟨st1, st2, items', h, rfl⟩
+
+theorem render_list_ok {cc : CharClass} {st : WSt} {cm : Bool} {cols : Nat} {cw : Option Int}
+    {sp : Nat} {kp : Option KeyPat} {u : Option Int} {nw : List NumW} {items : List Wd}
+    {w : Int} {t' : Wd} (h : (Wd.list st cm cols cw sp kp u nw items).render cc w = .ok t') :
+    ∃ used st1 numw items', renderListItems cc used kp 0 items = .ok (numw, items') ∧
+      t' = .list st1 cm cols cw sp kp (some used) numw items' := by
+  simp only [Wd.render] at h
+  split at h
+  · simp only [bind_eq_ok, throw_ne_ok, false_and, exists_false] at h
+  · simp only [bind_eq_ok, pure_eq_ok] at h
+    obtain ⟨⟨numw, items'⟩, h, rfl⟩ := h
+    exact ⟨_, _, numw, items', h, rfl⟩
+
+theorem renderListItems_cons_ok {cc : CharClass} {used : Int} {kp : Option KeyPat} {i : Nat}
+    {it : Wd} {its : List Wd} {nws : List NumW} {items' : List Wd}
+    (h : renderListItems cc used kp i (it :: its) = .ok (nws, items')) :
+    ∃ w' it' nws' its', it.render cc w' = .ok it' ∧
+      renderListItems cc used kp (i + 1) its = .ok (nws', its') ∧ items' = it' :: its' := by
+  simp only [renderListItems] at h
+  split at h
+  · simp only [bind_eq_ok, throw_ne_ok, false_and, exists_false] at h
+  · split at h
+    · simp only [bind_eq_ok] at h
+      obtain ⟨_, _, h⟩ := h
+      split at h
+      · simp only [bind_eq_ok, throw_ne_ok, false_and, exists_false] at h
+      · simp only [bind_eq_ok, pure_eq_ok, Prod.mk.injEq] at h
+        obtain ⟨_, _, it', h1, ⟨nws', its'⟩, h2, -, rfl⟩ := h
+        exact ⟨_, it', nws', its', h1, h2, rfl⟩
+    · simp only [bind_eq_ok, pure_eq_ok, Prod.mk.injEq] at h
+      obtain ⟨_, _, it', h1, ⟨nws', its'⟩, h2, -, rfl⟩ := h
+      exact ⟨_, it', nws', its', h1, h2, rfl⟩
+
+/-! ### rendering keeps the contents -/
+
+mutual
+theorem render_keeps (cc : CharClass) : ∀ (t t' : Wd) (w : Int), t.render cc w = .ok t' → t'.reset = t.reset
+  | .text st t, t', w, h => by
+    simp only [Wd.render, bind_eq_ok, pure_eq_ok] at h
+    obtain ⟨_, _, rfl⟩ := h
+    simp only [Wd.reset]
+  | .sep st n, t', w, h => by
+    simp only [Wd.render, pure_eq_ok] at h
+    subst h
+    simp only [Wd.reset]
+  | .center st c, t', w, h => by
+    simp only [Wd.render, bind_eq_ok] at h
+    obtain ⟨c', hc, h⟩ := h
+    have ih := render_keeps cc c c' w hc
+    split at h
+    · simp only [throw_ne_ok] at h
+    · simp only [pure_eq_ok] at h
+      subst h
+      simp only [Wd.reset, ih]
+  | .checkbox st k t x c, t', w, h => by
+    simp only [Wd.render, bind_eq_ok, pure_eq_ok] at h
+    obtain ⟨_, _, rfl⟩ := h
+    simp only [Wd.reset]
+  | .window st title items, t', w, h => by
+    obtain ⟨st1, st2, items', h', rfl⟩ := render_window_ok h
+    have ih := renderWindowItems_keeps cc items items' w st1 st2 h'
+    simp only [Wd.reset, ih]
+  | .list st cm cols cw sp kp u nw items, t', w, h => by
+    obtain ⟨used, st1, numw, items', h', rfl⟩ := render_list_ok h
+    have ih := renderListItems_keeps cc items items' used kp 0 numw h'
+    simp only [Wd.reset, ih]
+theorem renderWindowItems_keeps (cc : CharClass) : ∀ (items items' : List Wd) (w : Int) (st st' : WSt),
+    renderWindowItems cc w st items = .ok (st', items') → resetList items' = resetList items
+  | [], _, _, _, _, h => by
+    simp only [renderWindowItems, pure_eq_ok, Prod.mk.injEq] at h
+    rw [h.2]
+  | it :: its, items', w, st, st', h => by
+    simp only [renderWindowItems, bind_eq_ok, pure_eq_ok, Prod.mk.injEq] at h
+    obtain ⟨it', h1, ⟨st'', its'⟩, h2, -, rfl⟩ := h
+    have ih1 := render_keeps cc it it' w h1
+    have ih2 := renderWindowItems_keeps cc its its' w _ _ h2
+    simp only [resetList, ih1, ih2]
+theorem renderListItems_keeps (cc : CharClass) : ∀ (items items' : List Wd) (used : Int) (kp : Option KeyPat) (i : Nat) (nws : List NumW),
+    renderListItems cc used kp i items = .ok (nws, items') → resetList items' = resetList items
+  | [], _, _, _, _, _, h => by
+    simp only [renderListItems, pure_eq_ok, Prod.mk.injEq] at h
+    rw [h.2]
+  | it :: its, items', used, kp, i, nws, h => by
+    obtain ⟨w', it', nws', its', h1, h2, rfl⟩ := renderListItems_cons_ok h
+    have ih1 := render_keeps cc it it' w' h1
+    have ih2 := renderListItems_keeps cc its its' used kp (i + 1) nws' h2
+    simp only [resetList, ih1, ih2]
+end
+
+/-! ### corollaries -/
+
+theorem render_congr_reset (cc : CharClass) {t u : Wd} (w : Int) (h : t.reset = u.reset) :
+    t.render cc w = u.render cc w := by
+  rw [render_reset cc t, render_reset cc u, h]
+
 end Simpleline
